@@ -88,8 +88,8 @@ func diagDropSites(p *Program, fns []*ssa.Function) []diagDrop {
 
 // Named exceptions: one call each, with the reason the diagnostics may be left out on some path.
 var diagsKeptExceptions = map[string]string{
+	"hclsyntax.(*ConditionalExpr).Value:diags[Value]":  "by design a conditional reports the diagnostics of a result expression only when that result is the one selected (the other may fail legitimately, as in `x != null ? x.attr : d`); on the null-condition path no result is selected. (The type-mismatch path, which used to replace a failed result's own error by a type error, keeps them since fix 329ec4e.)",
 	"hclsyntax.(*BinaryOpExpr).Value:diags[<dynamic>]": "Operation.ShortCircuit returns (cty.NilVal, nil) when it does not force a result; its diagnostics belong to the forced result only (documented at the call)",
-	"hclsyntax.(*ConditionalExpr).Value:diags[Value]":  "on the 'Inconsistent conditional result types' error return the type error replaces the arms' diagnostics; an arm that failed evaluates to cty.DynamicVal, which always unifies, so only warnings can be left out",
 }
 
 // R8 (C15): diagnostics obtained from a callee are not lost on some paths only.
